@@ -282,3 +282,17 @@ func nullable(re *syntax.Regexp) bool {
 	}
 	return true
 }
+
+// namedStruct returns the struct type of a named type of the package.
+func (p *Program) namedStruct(pkg, name string) *types.Struct {
+	sp := p.SSAPkgs[pkg]
+	if sp == nil {
+		return nil
+	}
+	obj := sp.Pkg.Scope().Lookup(name)
+	if obj == nil {
+		return nil
+	}
+	st, _ := obj.Type().Underlying().(*types.Struct)
+	return st
+}
